@@ -52,6 +52,7 @@ class Knobs:
         self.p_assign = 0.0         # built-in assign with a literal mapping
         self.p_choose = 0.0         # built-in choose
         self.p_async_action = 0.0
+        self.p_probe = 0.0          # entry / exit lists that LOOK at the configuration (`choose` on `stateIn`: self, parent, another state)
         self.max_iterations = 25
         self.n_events = 8
         self.events = list(EVENTS)
@@ -78,6 +79,9 @@ PROFILES = {
                 "p_always": 0.15, "p_parallel": 0.3},
     "faults": {"p_ctx": 0.2, "p_fail": 0.3, "p_missing": 0.08, "p_assign": 0.1, "p_choose": 0.15, "p_async_action": 0.05,
                "p_raise": 0.1},
+    # entry and exit action lists that read the active configuration while a transition is under way: which of the states
+    # being exited / entered are (still / already) active when each list runs
+    "probe": {"p_probe": 0.6, "p_parallel": 0.45, "p_history": 0.2, "p_leaf": 0.4, "p_always": 0.05, "p_on": 0.5},
     "descr": {"p_wildcard": 0.5, "p_forbidden": 0.25, "p_on": 0.6, "events": ["a", "a.b", "a.b.c", "b", "a.c", "done.x", "xstate.q", "error.e", "after.1"],
               "p_always": 0.03, "p_raise": 0.05},
 }
@@ -282,6 +286,16 @@ def decorate(rng: random.Random, kn: Knobs, cfg, paths):
             continue
         n["entry"] = [f"en:{tag}"] + (extra_actions() if any_extra and rng.random() < 0.4 else [])
         n["exit"] = [f"ex:{tag}"] + (extra_actions() if any_extra and rng.random() < 0.3 else [])
+        if kn.p_probe > 0 and p and rng.random() < kn.p_probe:
+            def probe(phase):
+                seen = [p] + ([p[:-1]] if len(p) > 1 else []) + ([rng.choice(real)] if real else [])
+                return [{"type": rng.choice(["choose", "xstate.choose"]), "params": {"conditions": [
+                    {"guard": {"type": "stateIn", "params": {"state": _abs(q)}}, "actions": [f"pr:{phase}:{tag}:{j}:in"]},
+                    {"actions": [f"pr:{phase}:{tag}:{j}:out"]}]}} for j, q in enumerate(seen)]
+            n["exit"] = n["exit"] + probe("x")
+            if rng.random() < 0.5:
+                n["entry"] = n["entry"] + probe("e")
+            feats.add("probe")
         if rng.random() < kn.p_raise * 0.5:
             n["entry"].append(raise_action())
         if n.get("type") == "final":
